@@ -363,9 +363,12 @@ fn c19_fleet_seq(case: &Case) {
     // attempt belong to the script and are dropped with it
     net::refuse_next(addr, 0);
     let (t1, h1) = do_call(&fleet);
+    // (no second chance when the last thing the fleet saw was a refused dial: it then holds no
+    // connection that could have died silently)
+    let last_was_refused = log.lock().unwrap().events.last().is_some_and(|e| e.ends_with("Refused"));
     let recovered = if h1.is_ok() {
         true
-    } else if max_attempts == 1 {
+    } else if max_attempts == 1 && !last_was_refused {
         // one attempt per call: the failed call must at least have cleared the dead
         // connection, so the next call reconnects and succeeds
         case.probe("second_healthy_call_needed");
